@@ -398,6 +398,7 @@ func doRecord(args []string) {
 	n := fs.Int("n", 1000, "number of events/cases")
 	out := fs.String("out", "", "summary file")
 	trace := fs.String("trace", "trace.ndjson", "trace output")
+	fs.StringVar(&recordOps, "ops", "", "recorder specific: comma separated operation classes to record (default: all)")
 	if len(args) < 1 {
 		fmt.Fprintln(os.Stderr, "usage: mxjconf record <family> ...")
 		os.Exit(2)
@@ -430,6 +431,21 @@ func doRecord(args []string) {
 		fmt.Fprintln(os.Stderr, "mxjconf:", a.Fatal)
 		os.Exit(2)
 	}
+}
+
+// recordOps: operation classes a recorder is asked to restrict itself to ("" = all)
+var recordOps string
+
+func wantOp(op string) bool {
+	if recordOps == "" {
+		return true
+	}
+	for _, o := range strings.Split(recordOps, ",") {
+		if o == op {
+			return true
+		}
+	}
+	return false
 }
 
 // doOne re-executes saved mismatch cases: file holds {"family":..,"case":..}; the family's
@@ -479,7 +495,7 @@ func doOne(args []string) {
 		scratch := newAcc(r.Family)
 		for p := 0; p < passes; p++ {
 			for i, l := range r.Ctx {
-				if r.Family == "path" && i < len(r.Ctx)-1 {
+				if f.record != nil && i < len(r.Ctx)-1 {
 					f.replay([]byte(l), scratch)
 				} else {
 					f.replay([]byte(l), a)
@@ -487,7 +503,7 @@ func doOne(args []string) {
 			}
 		}
 		writeSummary(a, "-")
-		if a.SigCounts[r.Sig] > 0 || (r.Family == "path" && a.MisCount > 0) {
+		if a.SigCounts[r.Sig] > 0 || (f.record != nil && a.MisCount > 0) {
 			os.Exit(1)
 		}
 		return
